@@ -228,7 +228,16 @@ func meshes2(r *vlib.Run) {
 		ctor := "MeshToSDF"
 		if rng.Intn(4) == 0 {
 			rng.Shuffle(len(faces), func(i, j int) { faces[i], faces[j] = faces[j], faces[i] })
-			sdf = model2d.GroupedSegmentsToSDF(faces)
+			// the slice handed over belongs to the caller, who goes on using it (re-sorts it, reuses it as
+			// a scratch buffer): the finished field must keep describing the faces it was built from
+			handed := append([]*model2d.Segment{}, faces...)
+			sdf = model2d.GroupedSegmentsToSDF(handed)
+			rng.Shuffle(len(handed), func(i, j int) { handed[i], handed[j] = handed[j], handed[i] })
+			for i := range handed {
+				if i%2 == 0 {
+					handed[i] = handed[0]
+				}
+			}
 			ctor = "GroupedSegmentsToSDF(ungrouped)"
 		} else {
 			sdf = model2d.MeshToSDF(model2d.NewMeshSegments(faces))
